@@ -36,6 +36,7 @@ ALIAS = L.ALIAS
 STAR = L.STAR
 NLJOIN = L.NLJOIN
 DIVERGE = 'c19-analysis-diverges-on-growing-tuple-types'
+OSC = 'c19-walk-oscillates-after-non-monotone-step'
 
 
 def generate():
@@ -83,8 +84,9 @@ def one_program(src, vecs, decline=None, local_args_unknown=False):
     res = L.make_resolver(prog, runs, decline=decline, log=log, local_args_unknown=local_args_unknown)
     try:
         an = L.analyze(prog, res)
-    except L.Diverged:
-        return {'prog': prog, 'runs': runs, 'an': None, 'diverged': True, 'fails': [], 'log': log}
+    except L.Diverged as e:
+        return {'prog': prog, 'runs': runs, 'an': None, 'diverged': True, 'fails': [], 'log': log,
+                'div': {'kind': e.kind, 'shrunk': e.shrunk, 'visits': e.visits}}
     fails = L.judge(prog, an, runs) + L.path_failures(prog, an, runs)
     return {'prog': prog, 'runs': runs, 'an': an, 'diverged': False, 'fails': fails, 'log': log}
 
@@ -199,7 +201,7 @@ def check(run):
     fn_meta = {}
     meta = {}
     unexplained = []
-    known = {UNTYPED: 0, SIDE: 0, ALIAS: 0, STAR: 0, NLJOIN: 0, DIVERGE: 0}
+    known = {UNTYPED: 0, SIDE: 0, ALIAS: 0, STAR: 0, NLJOIN: 0, DIVERGE: 0, OSC: 0}
     hist = {}
     seen_src = set()
     stats = {'programs': 0, 'runs': 0, 'runs_raising': 0, 'annotated_nodes': 0, 'events_checked': 0,
@@ -226,11 +228,16 @@ def check(run):
             run.nontriv(src)
         if r['diverged']:
             stats['diverged'] += 1
-            if grows_tuples_in_loop(src):
+            dv = r['div']
+            if grows_tuples_in_loop(src) and dv['kind'] in ('growth', 'budget'):
                 known[DIVERGE] += 1
                 run.violation('analysis does not reach a fixed point', {}, classify=DIVERGE)
+            elif dv['kind'] == 'periodic' and dv['shrunk']:
+                # the states cycle exactly, and a node lost a type between two visits (the non-monotone step)
+                known[OSC] += 1
+                run.violation('analysis oscillates', {}, classify=OSC)
             else:
-                unexplained.append(('type inference did not reach a fixed point within %d node visits' % L.VISIT_BUDGET,
+                unexplained.append(('type inference did not reach a fixed point (%s after %d node visits)' % (dv['kind'], dv['visits']),
                                     src, vecs, None))
             continue
         stats['annotated_nodes'] += len(r['an'].types)
@@ -374,8 +381,10 @@ def replay(path):
             print('FAIL the analysis raised %s: %s' % (type(e).__name__, str(e)[:200]))
             return 1
         if r['diverged']:
-            print('type inference did not reach a fixed point')
-            return 1
+            dv = r['div']
+            known_div = (grows_tuples_in_loop(src) and dv['kind'] in ('growth', 'budget')) or (dv['kind'] == 'periodic' and dv['shrunk'])
+            print('%stype inference did not reach a fixed point: %s' % ('KNOWN ' if known_div else 'FAIL ', dv))
+            return 0 if known_div else 1
         for f in r['fails']:
             print(('KNOWN [%s] ' % f['cause'] if f['cause'] else 'FAIL ') + describe(f) + (' (analysis %d of %d)' % (k + 1, nrep) if nrep > 1 else ''))
             bad += 0 if f['cause'] else 1
